@@ -58,6 +58,22 @@ def step (st : St) (args : List String) : St × String :=
     if MW.Gen.Proto.taskChanInitBeforeGo then
       ({ st with led := finishTask (catchUp st.led) "remove" w }, "accepted stopped\taccepted stopped")
     else ({ st with dead := true }, nilPanic ++ "\taccepted stopped")
+  | ["stophold", blks] =>
+    if !st.started then (st, "bad-op") else
+    let bs := blks.splitOn ";"
+    -- every block defined and extending its predecessor (the first one the node's tip), one throw-away wallet each
+    let tip := (st.led.node.chain.getLast?.map (·.id)).getD "?"
+    let ok := (bs.zipIdx.foldl (fun (acc : Bool × String) (bi : String × Nat) =>
+      match AMap.get st.led.node.known bi.1 with
+      | some blk => (acc.1 && blk.prev == acc.2 && st.ext.contains s!"I{bi.2 + 1}", bi.1)
+      | none => (false, bi.1)) (true, tip)).1
+    if !ok then (st, "bad-op") else
+    if canHang Shape.current (Cfg.current st.led.wallets.length) "import" "handler" 1 then
+      ({ st with dead := true }, "HANG\tstopped")
+    else
+      let led := bs.zipIdx.foldl (fun l (bi : String × Nat) =>
+        finishTask (catchUp (Led.step l ["submit", bi.1]).1) "import" s!"I{bi.2 + 1}") st.led
+      ({ st with led := led }, "stopped\tstopped")
   | ["stopat", task, who, place] =>
     if !st.started then (st, "bad-op") else
     let known := match task with
